@@ -570,6 +570,20 @@ class Q:
         if res == "sat":
             v = sol.model()[s]
             v = "" if v is None else unescape_model_string(v.as_string())
+            if len(v) >= 1000:
+                # the translation reads JASM's {0,1000} field bounds as unbounded (stated bound: fields shorter than 1000
+                # characters); a witness that long may lie outside that bound, so ask for one inside it
+                sol.add(z3.Length(s) < 1000)
+                t = time.time()
+                res2 = str(sol.check())
+                self.wall += time.time() - t
+                self.n += 1
+                if res2 == "sat":
+                    v = sol.model()[s]
+                    return "sat", ("" if v is None else unescape_model_string(v.as_string()))
+                self.tally[res] -= 1
+                self.tally["unknown"] = self.tally.get("unknown", 0) + 1
+                return "unknown", "the only witness found exceeds the stated 1000-character bound"
             return res, v
         if res == "unknown":
             return res, sol.reason_unknown()
